@@ -590,6 +590,13 @@ def id_engine(prop, tier, seed):
             values += 2
             if a != int(k): bad('id|regionId-differs-from-depth-first-numbering', {'region': int(k), 'observed': a, 'shape': sj['desc'][:200]}); break
             if b != a: bad('id|peer-with-same-structure-disagrees', {'region': int(k), 'observed': [a, b]}); break
+        # the same lookups through the instance type (the payload flavour of the root has its own forwarders)
+        for k, (a, b) in d.get('isid', {}).items():
+            values += 2
+            if a != int(k) or b != int(k): bad('id|instance-level-stateId-differs', {'state': int(k), 'observed': [a, b]}); break
+        for k, (a, b) in d.get('irid', {}).items():
+            values += 2
+            if a != int(k) or b != int(k): bad('id|instance-level-regionId-differs', {'region': int(k), 'observed (void payload, int payload)': [a, b], 'shape': sj['desc'][:200]}); break
         for i, v in enumerate(d['seen']):
             if v: 
                 values += 1
